@@ -137,3 +137,16 @@ pub fn vx_for_each_mut<T, F: FnMut(&mut T)>(v: &mut Vec<T>, f: F)
             *x == old(v)@[i] && *final(x) == final(v)@[i] && call_ensures(f, (x,), ()),
 { v.iter_mut().for_each(f) }
 ''')
+
+
+def map_any(U):
+    """R27 support: `M.iter().any(F)` over a HashMap is read as a call of this function.  ASSUMED (std semantics of hash_map::Iter +
+    Iterator::any): the result is true iff F answers true for some entry of the map, each entry handed to F as (&key, &value)."""
+    U.add('''
+#[verifier::external_body]
+pub fn vx_map_any<K, V, F: Fn((&K, &V)) -> bool>(m: &HashMap<K, V>, f: F) -> (r: bool)
+    requires forall |k: &K, v: &V| #[trigger] call_requires(f, ((k, v),)),
+    ensures r ==> (exists |k: K| #[trigger] m@.contains_key(k) && call_ensures(f, ((&k, &m@[k]),), true)),
+        !r ==> (forall |k: K| #[trigger] m@.contains_key(k) ==> call_ensures(f, ((&k, &m@[k]),), false)),
+{ m.iter().any(f) }
+''')
